@@ -26,6 +26,7 @@ Inductive ev19 :=
 | DCr (n : str)                (* open(n, 'wb') *)
 | DWr (n : str)                (* one write call on n *)
 | DCl (n : str) (b : list Blk) (* n is closed, holding b *)
+| DClErr (n : str)             (* closing n failed with an I/O error on the final flush: n stays torn *)
 | DRn (a b : str)              (* os.rename(a, b) *)
 | DGet                         (* requests.get(url, stream=True) *)
 | DStatus                      (* r.raise_for_status(); r.headers['content-length'] *)
@@ -49,8 +50,11 @@ Record source := mkSource {
   s_get : bool;                 (* requests.get returns (false: connection error) *)
   s_status : bool;              (* raise_for_status passes *)
   s_length : option Z;          (* the content-length header (None: missing / not an int) *)
-  s_reads : list (option Blk)
+  s_reads : list (option Blk);
+  s_close : bool                (* closing the written file succeeds (false: I/O error on the final flush) *)
 }.
+
+Definition close_ev (ok : bool) (n : str) (b : list Blk) : ev19 := if ok then DCl n b else DClErr n.
 
 Fixpoint dl_loop (part : str) (n j : nat) (l : list (option Blk)) (acc : list Blk)
   : list ev19 * list Blk * bool :=
@@ -72,20 +76,22 @@ Definition download (d : dir) (path : str) (src : source) : list ev19 * bool :=
   | Some _ => ([DMk; DEx path], true)
   | None =>
     let pre := [DMk; DEx path; DCr part; DGet] in
-    if negb (s_get src) then (pre ++ [DCl part []], false)
-    else if negb (s_status src) then (pre ++ [DStatus; DCl part []], false)
+    let cl := close_ev (s_close src) part in
+    if negb (s_get src) then (pre ++ [cl []], false)
+    else if negb (s_status src) then (pre ++ [DStatus; cl []], false)
     else match s_length src with
-         | None => (pre ++ [DStatus; DCl part []], false)
+         | None => (pre ++ [DStatus; cl []], false)
          | Some len =>
            let '(e, acc, ok) := dl_loop part (Z.to_nat (download_num_blocks len download_block_size)) 0 (s_reads src) [] in
-           if ok then (pre ++ [DStatus] ++ e ++ [DCl part acc] ++ [DRn part path], true)
-           else (pre ++ [DStatus] ++ e ++ [DCl part acc], false)
+           if ok && s_close src then (pre ++ [DStatus] ++ e ++ [DCl part acc] ++ [DRn part path], true)
+           else (pre ++ [DStatus] ++ e ++ [cl acc], false)
          end
   end.
 
 Record zsource := mkZ {
   z_open : bool;                (* lzma.open succeeds *)
-  z_chunks : list (option Blk)  (* decompressed stream as copyfileobj reads it *)
+  z_chunks : list (option Blk); (* decompressed stream as copyfileobj reads it *)
+  z_close : bool                (* closing the written file succeeds *)
 }.
 
 Fixpoint cp_loop (dpart : str) (j : nat) (l : list (option Blk)) (acc : list Blk) : list ev19 * list Blk * bool :=
@@ -104,8 +110,8 @@ Definition decompress (d : dir) (dpath : str) (z : zsource) : list ev19 * bool :
   | None =>
     if negb (z_open z) then ([DEx dpath; DZOpen path], false)
     else let '(e, acc, ok) := cp_loop dpart 0 (z_chunks z) [] in
-         if ok then ([DEx dpath; DZOpen path; DCr dpart] ++ e ++ [DCl dpart acc] ++ [DRn dpart dpath], true)
-         else ([DEx dpath; DZOpen path; DCr dpart] ++ e ++ [DCl dpart acc], false)
+         if ok && z_close z then ([DEx dpath; DZOpen path; DCr dpart] ++ e ++ [DCl dpart acc] ++ [DRn dpart dpath], true)
+         else ([DEx dpath; DZOpen path; DCr dpart] ++ e ++ [close_ev (z_close z) dpart acc], false)
   end.
 
 (* a sequence of calls on one cache directory, each possibly killed after k effects *)
@@ -145,7 +151,7 @@ Arguments call : clear implicits.
    file's observed content is the length n of the payload prefix it equals. *)
 
 Inductive oev19 :=
-| OMk | OEx (final : bool) | OCr (partial : bool) | OWr | OCl (n : Z) | ORn | OGet | OStatus | ORead (j : nat)
+| OMk | OEx (final : bool) | OCr (partial : bool) | OWr | OCl (n : Z) | OClErr | ORn | OGet | OStatus | ORead (j : nat)
 | OZOpen | OZRead (j : nat) | OBad.
 
 Inductive ofile := OWhole (n : Z) | OGarbage.      (* == payload[:n] / anything else *)
@@ -157,8 +163,8 @@ Record ocall := mkOCall {
 }.
 
 Inductive ccall :=
-| KDownload (get status : bool) (len : option Z) (reads : list (option Z))
-| KDecompress (opened : bool) (chunks : list (option Z)).
+| KDownload (get status : bool) (len : option Z) (reads : list (option Z)) (close : bool)
+| KDecompress (opened : bool) (chunks : list (option Z)) (close : bool).
 
 Record C19_case := mkC19 { k_calls : list (ccall * option nat) }.
 Record C19_obs := mkO19 { o_calls : list ocall }.
@@ -168,16 +174,16 @@ Definition the_dpath : str := [100; 97; 116; 97].                           (* "
 
 Definition to_call (c : ccall) : call Z :=
   match c with
-  | KDownload g s len rd => CDownload the_path (mkSource g s len rd)
-  | KDecompress o ch => CDecompress the_dpath (mkZ o ch)
+  | KDownload g s len rd cl => CDownload the_path (mkSource g s len rd cl)
+  | KDecompress o ch cl => CDecompress the_dpath (mkZ o ch cl)
   end.
 
 Definition sumz (l : list Z) : Z := fold_left Z.add l 0.
 
 Definition ev19_agree (c : ccall) (e : ev19 Z) (o : oev19) : bool :=
-  let final := match c with KDownload _ _ _ _ => the_path | _ => the_dpath end in
+  let final := match c with KDownload _ _ _ _ _ => the_path | _ => the_dpath end in
   let part := match c with
-              | KDownload _ _ _ _ => the_path ++ download_partial_suffix
+              | KDownload _ _ _ _ _ => the_path ++ download_partial_suffix
               | _ => the_dpath ++ decompress_partial_suffix
               end in
   match e, o with
@@ -186,6 +192,7 @@ Definition ev19_agree (c : ccall) (e : ev19 Z) (o : oev19) : bool :=
   | DCr n, OCr true => streqb n part
   | DWr n, OWr => streqb n part
   | DCl n b, OCl k => streqb n part && (sumz b =? k)
+  | DClErr n, OClErr => streqb n part
   | DRn a b, ORn => streqb a part && streqb b final
   | DGet, OGet => true
   | DStatus, OStatus => true
@@ -217,9 +224,9 @@ Fixpoint calls_agree (cs : list (ccall * option nat)) (rs : list (list (ev19 Z) 
   match cs, rs, os with
   | [], [], [] => true
   | (c, _) :: cs', (tr, d, out) :: rs', o :: os' =>
-    let final := match c with KDownload _ _ _ _ => the_path | _ => the_dpath end in
+    let final := match c with KDownload _ _ _ _ _ => the_path | _ => the_dpath end in
     let part := match c with
-                | KDownload _ _ _ _ => the_path ++ download_partial_suffix
+                | KDownload _ _ _ _ _ => the_path ++ download_partial_suffix
                 | _ => the_dpath ++ decompress_partial_suffix
                 end in
     trace19_agree c tr (oc_trace o) && (outcome_code out =? oc_outcome o) &&
@@ -231,7 +238,7 @@ Fixpoint calls_agree (cs : list (ccall * option nat)) (rs : list (list (ev19 Z) 
 (* decompression cases start with the compressed file in the cache *)
 Definition initial_dir (c : C19_case) : @AtomFS.dir str (list Z) :=
   match k_calls c with
-  | (KDecompress _ _, _) :: _ => [(the_path, Whole [])]
+  | (KDecompress _ _ _, _) :: _ => [(the_path, Whole [])]
   | _ => []
   end.
 
